@@ -350,6 +350,7 @@ func WorkerMain(t *testing.T) {
 						rec.Faults = m.Faults
 						writeViolation(&rec)
 						resFile.Sync()
+						dumpLog(run, "violation "+v.Rule+"@"+v.Site+": "+v.Detail, c, m)
 						os.Exit(3)
 					}
 				}()
@@ -368,6 +369,7 @@ func WorkerMain(t *testing.T) {
 				rec.Faults = m.Faults
 			}
 			writeViolation(&rec)
+			dumpLog(run, "violation "+viol.Rule+"@"+viol.Site+": "+viol.Detail, c, m)
 			os.Exit(3)
 		}
 		if c.Diverged != "" {
@@ -392,19 +394,27 @@ func WorkerMain(t *testing.T) {
 			rr.Sample = tail(m.Trace, 40)
 		}
 		enc.Encode(&rr)
-		if os.Getenv("VERIF_DUMP_LOG") != "" {
-			// Determinism self-test: the full decision/observation log.
-			f, _ := os.OpenFile(os.Getenv("VERIF_DUMP_LOG"), os.O_CREATE|os.O_WRONLY|os.O_APPEND, 0644)
-			fmt.Fprintf(f, "== run %d sig %s draws %d\n", run, rr.Sig, rr.Draws)
-			for _, d := range c.Rec {
-				fmt.Fprintf(f, "%s/%d=%d\n", d.L, d.N, d.V)
-			}
-			for _, l := range m.Trace {
-				fmt.Fprintln(f, l)
-			}
-			f.Close()
+		dumpLog(run, fmt.Sprintf("sig %s draws %d", rr.Sig, rr.Draws), c, m)
+	}
+}
+
+// dumpLog appends the full decision/observation log of a run to the file of
+// the determinism self-test (a run that ends in a violation included).
+func dumpLog(run int, head string, c *Chooser, m *Sim) {
+	if os.Getenv("VERIF_DUMP_LOG") == "" {
+		return
+	}
+	f, _ := os.OpenFile(os.Getenv("VERIF_DUMP_LOG"), os.O_CREATE|os.O_WRONLY|os.O_APPEND, 0644)
+	fmt.Fprintf(f, "== run %d %s\n", run, head)
+	for _, d := range c.Rec {
+		fmt.Fprintf(f, "%s/%d=%d\n", d.L, d.N, d.V)
+	}
+	if m != nil {
+		for _, l := range m.Trace {
+			fmt.Fprintln(f, l)
 		}
 	}
+	f.Close()
 }
 
 // effectiveFlavour is the build flavour, or "S" when the worker runs under
